@@ -20,6 +20,13 @@
      Union[X, None], unions are flat, duplicate free and compare as sets, typing.List[int] is not
      list[int].  An entry without a type, or whose type cannot be evaluated, is not equal to anything.
    * a docstring has to exist.
+   * names are compared literally: the Google form `*args (int)` documents a parameter called "*args", which is
+     not the annotated parameter "args" (pedantic reads it the same way).
+
+   Limit (audit): `denotes` uses eval / ty_eqb of Model/DocstringTyping.v, the same hand-written model of typing the
+   model of the check uses; "a type equal to its annotation" is therefore relative to that shared model.  It is tied to
+   CPython twice on every run: the correspondence stream `typing` (eval, ==, both directions) and the Python-side
+   oracle `py_consistent` (harness/w_docstring.py: Python's own eval and ==) that is compared with `consistentb`.
 
    The specification does not know about contexts built while iterating, about the order of the
    annotations, about `typing.` spellings or about which check runs first.                       *)
@@ -95,18 +102,19 @@ Definition same_denotation (scope : list string) (d d' : dtype) : Prop :=
   exists t t', eval scope (dt_expr d) = Ok t /\ eval scope (dt_expr d') = Ok t' /\ ty_eqb t' t = true.
 
 (* a documented type Python can evaluate in the scope of the function, or that fails because it
-   mentions a name that is not defined (what is excluded: texts that are not expressions, wrong
-   numbers of type arguments, subscripts of things that are not generic ... - not types at all) *)
+   mentions a name that is not defined.  Not a hypothesis of any property theorem (since eaebe0b every
+   evaluation failure is turned into PedanticDocstringException); kept as a fact about the vocabulary:
+   every well-formed type expression is evaluable (Proofs/DocstringWf.v).                            *)
 Definition evaluable (scope : list string) (d : dtype) : bool :=
   match eval scope (dt_expr d) with
   | Ok _ => true
   | Raise e => derives e NameErrorC
   end.
 
-(* The new documented type is any type expression Python can evaluate whose denotation
-   differs from the old one: that covers the replacement of one sub-expression at any nesting
-   depth (`plug` below) and also any larger change.  Every well-formed type expression of the
-   vocabulary (`wf_expr`) is evaluable (Proofs/DocstringWf.v).                                    *)
+(* The new documented type is ANY expression whose denotation differs from the old one or that has no
+   denotation at all (a text that is not an expression, a wrong number of type arguments, a subscript
+   of something that is not generic, an unknown name ...): that covers the replacement of one
+   sub-expression at any nesting depth (`plug` below) and also any larger change.                    *)
 Inductive one_edit (scope : list string) : docT -> docT -> Prop :=
 | E_drop_param : forall raw l1 p l2 r,
     one_edit scope (mkdoc raw (l1 ++ p :: l2) r) (mkdoc raw (l1 ++ l2) r)
@@ -115,14 +123,14 @@ Inductive one_edit (scope : list string) : docT -> docT -> Prop :=
 | E_rename_param : forall raw l1 n n' ot l2 r, n' <> n ->
     one_edit scope (mkdoc raw (l1 ++ (n, ot) :: l2) r) (mkdoc raw (l1 ++ (n', ot) :: l2) r)
 | E_change_type : forall raw l1 n d d' l2 r,
-    evaluable scope d' = true -> ~ same_denotation scope d d' ->
+    ~ same_denotation scope d d' ->
     one_edit scope (mkdoc raw (l1 ++ (n, Some d) :: l2) r) (mkdoc raw (l1 ++ (n, Some d') :: l2) r)
 | E_drop_returns : forall raw ps l,
     one_edit scope (mkdoc raw ps (Some l)) (mkdoc raw ps None)
 | E_add_returns : forall raw ps l,
     one_edit scope (mkdoc raw ps None) (mkdoc raw ps (Some l))
 | E_alter_returns : forall raw ps d d',
-    evaluable scope d' = true -> ~ same_denotation scope d d' ->
+    ~ same_denotation scope d d' ->
     one_edit scope (mkdoc raw ps (Some [d])) (mkdoc raw ps (Some [d']))
 | E_untype_returns : forall raw ps d,
     one_edit scope (mkdoc raw ps (Some [d])) (mkdoc raw ps (Some []))
